@@ -348,6 +348,57 @@ pub fn c15_erdos_renyi_rejects_adjacency_map() {
     erdos_renyi_rejects::<AdjacencyMap, 3>();
 }
 
+/// Determinism of one generator (`which`: 0 tournament, 1 tree, 2 erdos_renyi with p = 1/2).
+fn deterministic_one<R: Rep, const N: usize>(which: usize) {
+    cx::set_vcap(N + 1);
+    cx::set_parallelism(1);
+
+    let seed = nd::u64();
+
+    match which {
+        0 => {
+            let a = R::random_tournament(N, seed);
+            let b = R::random_tournament(N, seed);
+
+            assert!(a == b, "equal arguments give equal digraphs");
+            core::mem::forget(a);
+            core::mem::forget(b);
+        }
+        1 => {
+            let a = R::random_recursive_tree(N, seed);
+            let b = R::random_recursive_tree(N, seed);
+
+            assert!(a == b, "equal arguments give equal digraphs");
+            core::mem::forget(a);
+            core::mem::forget(b);
+        }
+        _ => {
+            let a = R::erdos_renyi(N, 0.5, seed);
+            let b = R::erdos_renyi(N, 0.5, seed);
+
+            assert!(a == b, "equal arguments give equal digraphs");
+            core::mem::forget(a);
+            core::mem::forget(b);
+        }
+    }
+}
+
+// Determinism: random_tournament(3, seed) twice, every seed, AdjacencyMatrix.
+// @verif prop=C15 tier=exp fl=f0 role=deterministic/tournament t=1200 mem=14
+#[cfg_attr(kani, kani::proof)]
+#[cfg_attr(kani, kani::unwind(8))]
+pub fn c15_deterministic_tournament_matrix_n3() {
+    deterministic_one::<AdjacencyMatrix, 3>(0);
+}
+
+// Determinism: erdos_renyi(3, 0.5, seed) twice, every seed, AdjacencyMatrix.
+// @verif prop=C15 tier=exp fl=f0 role=deterministic/erdos-renyi t=1200 mem=14
+#[cfg_attr(kani, kani::proof)]
+#[cfg_attr(kani, kani::unwind(8))]
+pub fn c15_deterministic_erdos_renyi_matrix_n3() {
+    deterministic_one::<AdjacencyMatrix, 3>(2);
+}
+
 // Determinism: two calls with equal (symbolic) arguments, AdjacencyMatrix.
 // @verif prop=C15 tier=exp fl=f0 role=deterministic/matrix t=3600 mem=24
 #[cfg_attr(kani, kani::proof)]
